@@ -3,6 +3,9 @@ package c06
 
 import (
 	"fmt"
+	"net"
+	"os"
+	"syscall"
 	"time"
 
 	"verif/internal/devsim"
@@ -12,19 +15,19 @@ import (
 
 // Desc is one fault-enumeration case.
 type Desc struct {
-	Scenario string     `json:"scenario"`
-	Kind     string     `json:"kind"` // eof | err | write
-	K        int        `json:"k"`    // loss after byte K of the exchange (kind eof/err)
-	J        int        `json:"j"`    // the J-th write of the operation fails (kind write)
-	Idle     bool       `json:"idle"` // the loss is noticed by the reader before the operation starts
+	Scenario string `json:"scenario"`
+	Kind     string `json:"kind"` // eof | err | err-etimedout | err-econnreset | write
+	K        int    `json:"k"`    // loss after byte K of the exchange (kind eof/err)
+	J        int    `json:"j"`    // the J-th write of the operation fails (kind write)
+	Idle     bool   `json:"idle"` // the loss is noticed by the reader before the operation starts
 	// Unsol: while idle the device prints unsolicited output ending in a prompt redraw (a syslog
 	// line) just before the connection is lost.
-	Unsol bool `json:"unsolicited,omitempty"`
-	Seg      devsim.Seg `json:"seg"`
-	Base     int        `json:"base"`
-	S        int        `json:"s"`
-	Want     string     `json:"want"`
-	DryErr   string     `json:"dry_err,omitempty"`
+	Unsol  bool       `json:"unsolicited,omitempty"`
+	Seg    devsim.Seg `json:"seg"`
+	Base   int        `json:"base"`
+	S      int        `json:"s"`
+	Want   string     `json:"want"`
+	DryErr string     `json:"dry_err,omitempty"`
 }
 
 const (
@@ -75,8 +78,9 @@ func run(c mon.Case) mon.Result {
 		switch d.Kind {
 		case "eof":
 			cfg.Fault, cfg.FaultAt = devsim.FaultEOF, d.K
-		case "err":
+		case "err", "err-etimedout", "err-econnreset":
 			cfg.Fault, cfg.FaultAt = devsim.FaultErr, d.K
+			cfg.ErrValue = errValue(d.Kind)
 		case "write":
 			cfg.WriteErrN = d.J
 		}
@@ -112,7 +116,8 @@ func run(c mon.Case) mon.Result {
 		switch d.Kind {
 		case "eof":
 			s.Conn.SetFault(devsim.FaultEOF, at)
-		case "err":
+		case "err", "err-etimedout", "err-econnreset":
+			s.Conn.SetErrValue(errValue(d.Kind))
 			s.Conn.SetFault(devsim.FaultErr, at)
 		case "write":
 			s.Conn.SetWriteErrAfter(d.J)
@@ -201,6 +206,17 @@ func run(c mon.Case) mon.Result {
 			"transport": devsim.Summary(s.Conn.Log())}}
 }
 
+// errValue builds the persistent read error of a loss kind the way the net package reports it.
+func errValue(kind string) error {
+	switch kind {
+	case "err-etimedout":
+		return &net.OpError{Op: "read", Net: "tcp", Err: os.NewSyscallError("read", syscall.ETIMEDOUT)}
+	case "err-econnreset":
+		return &net.OpError{Op: "read", Net: "tcp", Err: os.NewSyscallError("read", syscall.ECONNRESET)}
+	}
+	return nil
+}
+
 func bucket(d time.Duration) string {
 	switch {
 	case d < 10*time.Millisecond:
@@ -284,12 +300,18 @@ func gen(tier string, seed int64) []mon.Case {
 				for _, kind := range []string{"eof", "err"} {
 					add(Desc{Scenario: sc.Name, Kind: kind, K: k, Seg: seg, Base: st.Base, S: st.S, Want: st.Want})
 				}
+				// the loss kinds the net package produces: every 5th offset (all in thorough)
+				if tier == "thorough" || k%5 == 2 || k == st.S {
+					for _, kind := range []string{"err-etimedout", "err-econnreset"} {
+						add(Desc{Scenario: sc.Name, Kind: kind, K: k, Seg: seg, Base: st.Base, S: st.S, Want: st.Want})
+					}
+				}
 			}
 			for j := 1; j <= st.Writes; j++ {
 				add(Desc{Scenario: sc.Name, Kind: "write", J: j, Seg: seg, Base: st.Base, S: st.S, Want: st.Want})
 			}
 			if sc.Pre != nil {
-				for _, kind := range []string{"eof", "err"} {
+				for _, kind := range []string{"eof", "err", "err-etimedout", "err-econnreset"} {
 					add(Desc{Scenario: sc.Name, Kind: kind, K: 0, Idle: true, Seg: seg, Base: st.Base, S: st.S, Want: st.Want})
 					if sc.Driver != "netconf" {
 						add(Desc{Scenario: sc.Name, Kind: kind, K: 0, Idle: true, Unsol: true, Seg: seg, Base: st.Base, S: st.S, Want: st.Want})
@@ -309,7 +331,7 @@ func init() {
 			"loses the connection after byte k (end-of-stream; persistent non-EOF error), for every write j of the operation the j-th write fails, and loss while idle. " +
 			"Non-trivial = 0<k<|S|, or write fault, or idle loss. Distinct = (scenario, kind, k/j, segmentation).",
 		Assumptions: []string{
-			"loss is modelled at the transport.Implementation boundary (devsim.Conn): Read returns io.EOF / a persistent error from stream offset base+k on; Write returns an error from the j-th write on",
+			"loss is modelled at the transport.Implementation boundary (devsim.Conn): Read returns io.EOF / a persistent error (a plain error, or *net.OpError wrapping ETIMEDOUT or ECONNRESET as the net package reports a vanished peer) from stream offset base+k on; Write returns an error from the j-th write on",
 			"'promptly' is judged as <= 1.5 s against an operation timeout of 6 s, and only while the load canary is healthy",
 			"a success is accepted only if the result equals the complete result of the fault-free dry run (k=|S| or only ignorable bytes missing)",
 			"sessions are not closed afterwards (closing a broken connection is C07); later operations are judged on error/no error only",
